@@ -12,10 +12,20 @@ Record c15probe := mkProbe { pb_cache : cache; pb_parent : json; pb_events : lis
 
 Inductive c15step := StSync (r : round) | StProbe (p : c15probe).
 
+(* a change of a related object while the parent's customize answer is NOT in the cache (the parent was never
+   synced on this manager, or the entry is gone): the handler asks the hook itself *)
+Record c15cold := mkCold {
+  cold_parent : json;      (* the parent as the informer holds it *)
+  cold_answer : json;      (* what the customize hook answers for it *)
+  cold_obj : json;         (* the related object that changed *)
+  cold_woken : bool }.     (* was the parent enqueued *)
+
 Record c15case := mkC15 {
   c15_cfg : ccfg;
   c15_builds : list (list c15step);
   c15_wakes : list (string * bool);     (* related object on the wire, changed -> was the parent enqueued *)
+  c15_cold : list c15cold;
+  c15_cold_calls : Z;                   (* customize calls for the cold parent during those probes; -1 = none ran *)
   c15_flags : list string }.
 
 Definition pairs_of (evs : list ev) : list (call * answer) := map (fun e => (e_call e, e_ans e)) evs.
@@ -174,6 +184,34 @@ Fixpoint builds_diverge (c : ccfg) (bs : list (list c15step)) (i : nat) : option
                  | None => builds_diverge c rest (S i) end
   end.
 
+(* the object is in the parent's related map on the wire: all rules usable, one of them selects it *)
+Definition in_related_map_spec (c : ccfg) (parent : json) (rules : list (option rule)) (o : json) : bool :=
+  negb (existsb (entry_bad (p_namespaced c) parent) rules) &&
+  negb (existsb (rule_unusable c) (some_rules rules)) &&
+  scope_ok c parent &&
+  wire_visible (get_ns parent) o &&
+  existsb (fun r => match lookup_res c (r_api_version r) (r_resource r) with
+                    | Some kc => String.eqb (get_api_version o) (ch_api_version kc) &&
+                                 String.eqb (get_kind o) (ch_kind kc) &&
+                                 spec_selects (p_namespaced c) parent r o
+                    | None => false end) (some_rules rules).
+
+(* property: whatever is in the related map wakes the parent, cached answer or not *)
+Definition cold_fail (c : ccfg) (p : c15cold) : option string :=
+  match decode_customize (cold_answer p) with
+  | Some rules =>
+      if in_related_map_spec c (cold_parent p) rules (cold_obj p) && negb (cold_woken p)
+      then Some "related-object-change-does-not-wake-parent:answer-not-cached" else None
+  | None => None
+  end.
+
+(* model: findRelatedParents asks the hook on a cache miss and then matches *)
+Definition cold_diverges (c : ccfg) (p : c15cold) : bool :=
+  negb (Bool.eqb (cold_woken p)
+                 (match decode_customize (cold_answer p) with
+                  | Some rules => parent_woken_by c (cold_parent p) rules [cold_obj p]
+                  | None => false end)).
+
 Definition C15_check (c : c15case) : verdict :=
   if negb (forallb (fun b => forallb (fun s => answers_in_domain (step_events s)) b) (c15_builds c))
   then SKIP "label syntax outside the modelled domain" else
@@ -184,12 +222,21 @@ Definition C15_check (c : c15case) : verdict :=
       | Some w => if String.eqb (fst w) "informer-handler-panicked" then PROPFAIL "panic"
                   else PROPFAIL ("related-object-change-does-not-wake-parent:" ++ fst w)%string
       | None =>
+          match first_some (cold_fail (c15_cfg c)) (c15_cold c) with
+          | Some w => PROPFAIL w
+          | None =>
+          if match c15_cold c with [] => false | _ => Z.ltb 1 (c15_cold_calls c) end
+          then PROPFAIL "customize-asked-again-while-cached" else
+          if existsb (cold_diverges (c15_cfg c)) (c15_cold c) then DIVERGE "cold-cache-wake" else
+          if match c15_cold c with [] => false | _ => negb (Z.eqb (c15_cold_calls c) 1) end
+          then DIVERGE "cold-cache-customize-call-count" else
           if negb (forallb (fun b => forallb (fun s => forallb (fun e => saneb (e_call e) (e_ans e)) (step_events s)) b)
                            (c15_builds c))
           then DIVERGE "environment-assumption-sane" else
           match builds_diverge (c15_cfg c) (c15_builds c) 0 with
           | Some w => DIVERGE w
           | None => OK
+          end
           end
       end
   end.
